@@ -2540,16 +2540,16 @@ before `for tok in self.tokens.by_ref() {`:
         }
 loop 0:
             invariant_except_break
-                no_newline(old(self).rem(), 0, n), n > 0 ==> old(self).rem()[n - 1].kind != TokenKind::Newline,
+                no_newline(old(self).rem(), 0, n), n > 0 ==> old(self).rem()[n - 1].kind != TokenKind::Newline,     // [C17] the line goes on until a newline token is pulled
                 self.rem() == old(self).rem().skip(n),
                 vstd::std_specs::iter::IteratorSpec::decrease(&self.tokens).is_some(), self.fuel() <= old(self).fuel(),
             invariant
                 vstd::std_specs::iter::IteratorSpec::obeys_prophetic_iter_laws(&self.tokens), self.input.spec_bytes() == the_input(),
                 self.ctx_same(old(self)), self.q() == old(self).q(),
                 0 <= n <= old(self).rem().len(), n == self.blk().len() - old(self).blk().len(),
-                (n > 0) == !no_tokens,
+                (n > 0) == !no_tokens,     // [C05] "no tokens" means none was pulled
                 self.blk() == old(self).blk() + old(self).rem().subrange(0, n),     // [C05] every token taken from the stream is stored in the block
-                is_empty == all_blank(old(self).rem(), 0, n),
+                is_empty == all_blank(old(self).rem(), 0, n),     // [C17] a line is empty exactly when all its tokens are blank
                 no_newline(old(self).rem(), 0, n - 1),
                 is_single_line == (old(self).rem().len() > 0 && single_marker(old(self).rem()[0].kind)),
             ensures
